@@ -87,9 +87,32 @@ Definition C18_events_hold (tddl per_mig:bool) (r:run) (evs:list event) : Prop :
     (* without transactional DDL no transaction markers are emitted *)
     forall e, In e evs -> is_marker e = false.
 
+(* ---- a run cut short by an exception (in the last step of r_steps) *)
+Definition step_content (k:N) (empty:bool) (s:ostep) : list event :=
+  (if empty then [CreateVT k] else []) ++ Running k :: flat_map (item_events k) (os_body s)
+  ++ repeat (VersionStmt k) (os_nver s).
+Fixpoint expected_cut (k:N) (empty:bool) (steps:list ostep) : list event :=
+  match steps with
+  | [] => []
+  | s :: r => step_content k empty s ++ expected_cut (N.succ k) (os_empty_after s) r
+  end.
+Definition C18_cut_hold (tddl:bool) (r:run) (evs:list event) : Prop :=
+  let E := strip_sep evs in
+  (* what was written is what ran, plus markers and separators *)
+  filter content evs = expected_cut 0 (r_init_empty r) (r_steps r) /\
+  if tddl then
+    (* every BEGIN emitted before the failure is closed by exactly one COMMIT or is the last, still open, block:
+       the automaton never rejects (no nesting, no unmatched COMMIT) *)
+    (exists depth, run_depth false E = Some depth) /\
+    (* autocommit statements outside every block, everything else inside one *)
+    (forall e b i, In (e, b, i) (ann 0 false E) -> i = negb (is_auto e))
+  else
+    forall e, In e evs -> is_marker e = false.
+
 Definition C18_holds (i:in_C18) (o:out_C18) : Prop :=
   let '(d, c, r) := i in
-  C18_events_hold (effective_tddl d c) (c_per_mig c) r (tokenize d o).
+  if r_cut r then C18_cut_hold (effective_tddl d c) r (tokenize d o)
+  else C18_events_hold (effective_tddl d c) (c_per_mig c) r (tokenize d o).
 
 (* ------------------------------------------------------------------ the decider *)
 Definition event_eqb (a b:event) : bool :=
@@ -128,9 +151,18 @@ Definition check_events (tddl per_mig:bool) (r:run) (evs:list event) : bool :=
   else
     forallb (fun e => negb (is_marker e)) evs.
 
+Definition check_cut (tddl:bool) (r:run) (evs:list event) : bool :=
+  let E := strip_sep evs in
+  list_eqb event_eqb (filter content evs) (expected_cut 0 (r_init_empty r) (r_steps r)) &&
+  if tddl then
+    match run_depth false E with Some _ => true | None => false end &&
+    forallb (fun x => match x with (e, _, i) => Bool.eqb i (negb (is_auto e)) end) (ann 0 false E)
+  else forallb (fun e => negb (is_marker e)) evs.
+
 Definition check_C18 (i:in_C18) (o:out_C18) : bool :=
   let '(d, c, r) := i in
-  check_events (effective_tddl d c) (c_per_mig c) r (tokenize d o).
+  if r_cut r then check_cut (effective_tddl d c) r (tokenize d o)
+  else check_events (effective_tddl d c) (c_per_mig c) r (tokenize d o).
 
 (* ------------------------------------------------------------------ exact correspondence *)
 Definition rchunk_eqb (a b:rchunk) : bool :=
@@ -142,7 +174,7 @@ Definition rchunk_eqb (a b:rchunk) : bool :=
   | _, _ => false
   end.
 Definition corr_C18 (i:in_C18) (o:out_C18) : bool :=
-  let '(d, c, r) := i in list_eqb rchunk_eqb (offline_chunks d c r) o.
+  let '(d, c, r) := i in list_eqb rchunk_eqb (offline_out d c r) o.
 
 (* hypotheses of the theorems as a predicate on inputs *)
 Definition inclass_C18 (i:in_C18) : bool := let '(d, _, _) := i in table_wf d.
